@@ -121,7 +121,8 @@ func (self *Compiler) mangleVar(input string) string {
 		self.varNameMangle[input]++
 	}
 
-	mangled := fmt.Sprintf("@%s_%s%d", self.currModule, input, cnt)
+	// (the separator keeps `x` number 10 apart from `x1` number 0)
+	mangled := fmt.Sprintf("@%s_%s#%d", self.currModule, input, cnt)
 	(*self.currScope)[input] = mangled
 
 	return mangled
